@@ -1,4 +1,4 @@
-(* Driver of the extracted model of the graph codecs (C07): reads the case file of
+(* Driver of the extracted model of graph6 / sparse6 (C07): reads the case file of
    harness/cmd/c07 on stdin and prints one observation per line in the format of that command. *)
 open Model
 open Conv_nat
@@ -55,9 +55,6 @@ let sparse_res (r : (z * (z * z) list) res) : string =
   | Ok (n, el) -> "ok:" ^ derived (int_of_z n) (List.map (fun (v, u) -> (int_of_z v, int_of_z u)) el)
   | Err -> "err" | Panic -> "panic" | OutOfFuel -> "outoffuel"
 
-let dgraph_text (d : dgraph) : string =
-  descr_of (int_of_z d.dn) (int_of_z d.dm) (List.map int_of_z d.ddeg) (edges_of_bits d.dedges)
-
 let bytes_of_string (s : string) : z list = List.init (String.length s) (fun i -> z_of_int (Char.code s.[i]))
 
 let spec_text (r : (z * (z * z) list) option) : string =
@@ -80,52 +77,16 @@ let do_graph (n : int) (es : (int * int) list) : string =
                             (sparse_res (sparse6_decode (bytes_of_string ">>sparse6<<" @ s)))
                             (spec_text (s6_spec_decode s)))
    | _ -> Buffer.add_string b ";s6=panic;s6d=na;s6hd=na;s6spec=na");
-  (if n <= 255 then
-     match multicode_encode g with
-     | Ok s ->
-       let d = match multicode_decode s with Ok d -> "ok:" ^ dgraph_text d | _ -> "panic" in
-       Buffer.add_string b (Printf.sprintf ";mc=%s;mcd=%s" (hex s) d)
-     | _ -> Buffer.add_string b ";mc=panic;mcd=na"
-   else Buffer.add_string b ";mc=na;mcd=na");
   Buffer.contents b
 
-let do_multi (recs : (int * (int * int) list) list) : string =
-  let rec enc rs acc =
-    match rs with
-    | [] -> Some (List.concat (List.rev acc))
-    | (n, es) :: r ->
-      (match multicode_encode (mk_graph n (clean n es)) with
-       | Ok s -> enc r (s :: acc)
-       | _ -> None)
-  in
-  match enc recs [] with
-  | None -> "mc=panic;mm=na"
-  | Some all ->
-    let d = match multicode_decode_multiple all with
-      | Ok gs -> "ok:" ^ String.concat "|" (List.map dgraph_text gs)
-      | _ -> "panic" in
-    Printf.sprintf "mc=%s;mm=%s" (hex all) d
+(* a stub graph: only the header bytes are observed; they are those of the model's header chain *)
+let hdr_size n = if n <= 62 then 1 else if n <= 258047 then 4 else 8
 
-let do_code (code : int list) : string =
-  match prufer_decode (List.map z_of_int code) with
-  | Ok (n, bits) ->
-    let n = int_of_z n in
-    let es = edges_of_bits bits in
-    let pe = match prufer_encode (mk_graph n es) with
-      | Ok c -> ints (List.map int_of_z c)
-      | _ -> "panic" in
-    Printf.sprintf "pd=ok:%s;pe=%s" (derived n es) pe
-  | _ -> "pd=panic;pe=na"
-
-let do_tree (n : int) (es : (int * int) list) : string =
-  let es = clean n es in
-  match prufer_encode (mk_graph n es) with
-  | Ok c ->
-    let pd = match prufer_decode c with
-      | Ok (n', bits) -> "ok:" ^ derived (int_of_z n') (edges_of_bits bits)
-      | _ -> "panic" in
-    Printf.sprintf "pe=%s;pd=%s" (ints (List.map int_of_z c)) pd
-  | _ -> "pe=panic;pd=na"
+let do_stub (n : int) : string =
+  let hdr = match enc_size (z_of_int n) with Ok h -> hex h | _ -> "panic" in
+  let g6 = if n <= 5000 then (if hdr = "panic" then "panic" else hdr) else "na" in
+  let s6 = if hdr = "panic" then "panic" else "3a" ^ hdr in
+  Printf.sprintf "g6hdr=%s;s6hdr=%s" g6 s6
 
 let () =
   try
@@ -137,14 +98,7 @@ let () =
       let out =
         match head with
         | ["G"; _; n] -> do_graph (int_of_string n) (List.map parse_edge toks)
-        | ["T"; _; n] -> do_tree (int_of_string n) (List.map parse_edge toks)
-        | ["M"; _] ->
-          do_multi (List.map (fun t ->
-              match String.split_on_char ':' t with
-              | [n] -> (int_of_string n, [])
-              | [n; es] -> (int_of_string n, List.map parse_edge (split_on ',' es))
-              | _ -> failwith "bad record") toks)
-        | ["P"] -> do_code (List.map int_of_string toks)
+        | ["H"; n] -> do_stub (int_of_string n)
         | _ -> "badcase"
       in
       print_endline out
